@@ -38,7 +38,7 @@ BUILDERS = {
 
 
 def builder_contract(steps, root="note"):
-    ens = [("starts-on-the-root", "result[0] == %s" % root)]
+    ens = [("starts-on-the-root", "result[0] == %s" % root), ("a-list-of-its-own-every-time", "is_fresh(result)")]
     for i, (d, s, adj) in enumerate(steps):
         L = "lup(%s[0], %d)" % (root, d)
         ens.append(("note%d-letter" % (i + 1), "result[%d][0] == %s" % (i + 1, L)))
